@@ -43,13 +43,14 @@ def seeds_block():
         what = m.get('needs_to_manifest', '')
         what = re.sub(r'^#+\s*', '', what)
         what = re.sub(r'\s+', ' ', what)[:150]
-        verdict = {0: 'missed (exit 0)', 1: 'reported', 2: 'no verdict (exit 2)'}.get(m.get('check_exit'), '?')
+        verdict = 'obsolete' if m.get('obsolete') else {0: 'missed (exit 0)', 1: 'reported', 2: 'no verdict (exit 2)'}.get(m.get('check_exit'), '?')
         rows.append('| %s | %s | %s | %s |' % (m['id'], verdict, ', '.join(r.split('.', 1)[1] for r in m.get('rules_fired', [])) or '-', what.replace('|', '/')))
     head = '| seeded change | quick check | rule(s) | what was changed (from the author\'s notes) |\n|---|---|---|---|\n'
     tot = len(rows)
     rep = sum(1 for r in rows if '| reported |' in r)
     nov = sum(1 for r in rows if 'no verdict' in r)
-    return head + '\n'.join(rows) + '\n\n%d seeded changes recorded: %d reported, %d no verdict, %d missed.\n' % (tot, rep, nov, tot - rep - nov)
+    obs = sum(1 for r in rows if '| obsolete |' in r)
+    return head + '\n'.join(rows) + '\n\n%d seeded changes recorded: %d reported, %d no verdict, %d missed, %d obsolete (made harmless by a later fix).\n' % (tot, rep, nov, tot - rep - nov - obs, obs)
 
 
 def fixed_block():
